@@ -74,7 +74,10 @@ pub fn gen_wops(r: &mut Prng, p: &Prof) -> Vec<WOp> {
         let size = |r: &mut Prng| if r.chance(p.p_empty, 1000) { 0 } else if r.chance(1, 20) { 1 + r.below(p.max_size * 40) } else { 1 + r.below(p.max_size) };
         if r.chance(p.p_vectored, 1000) {
             let k = 1 + r.below(4);
-            let parts: Vec<usize> = (0..k).map(|_| if r.chance(1, 4) { 0 } else { size(r) }).collect();
+            // (one vectored write in forty is big: slices of 1-20 KiB, so that the write as a whole
+            // crosses any internal size limit a few times, with slices lying across it)
+            let big = r.chance(1, 40);
+            let parts: Vec<usize> = (0..k).map(|_| if r.chance(1, 4) { 0 } else if big { 1024 + r.below(20_000) } else { size(r) }).collect();
             let all_empty = parts.iter().all(|x| *x == 0);
             if all_empty && p.p_empty == 0 {
                 v.push(WOp::WriteV(vec![0, 1 + r.below(p.max_size), 0]));
